@@ -499,7 +499,7 @@ def plans(tier):
         P.append(("depth3-full-symbolic", [full_p, full_p, red_int and write_ops(["p"], False)]))
         r4 = write_ops(["int"], False, offs=[0, 1, 2, 3])
         P.append(("depth4-reduced-concrete", [r4, r4, r4, r4]))
-        r3m = write_ops(["int", "cst", "cstw", "p", "q"], False, offs=[0, 1, 2, 3])
+        r3m = write_ops(["int", "cstw", "p", "q"], False, offs=[0, 1, 2])
         P.append(("depth3-mixed-zones", [r3m, r3m, r3m]))
     return P
 
